@@ -336,7 +336,7 @@ def popChoiceStringAndTags (tags : List String) : M (String × List String) := d
   let o ← popEvalM
   let str ← match o with
     | .val (.str t) => pure t
-    | _ => crash "choices.rs:pop_choice_string"
+    | _ => invalid "Expected the text of a choice on the evaluation stack."
   let rec popTags (fuel : Nat) (tags : List String) : M (List String) :=
     match fuel with
     | 0 => pure tags
